@@ -154,14 +154,13 @@ def pairing_values(net, generator, model, tier):
 		children = net.children.get(element.name, [])
 		if isinstance(field.field_type.size, int) and not field.field_type.is_expandable and field.field_type.size != 2:
 			continue
-		if tier == 'quick':
-			children = children[::2] if len(children) > 12 else children
 		for child in children:
 			if base is None:
 				base = generator.struct(model, 0)
 			first = generator.struct(child, 1)
 			follower = generator.struct(generator.rng.choice(children), 1)
-			for pair in ([first, follower], [follower, first]):
+			# quick: the child in the non-last position only (ordinary values already end arrays with every kind of child over time)
+			for pair in ([[first, follower]] if tier == 'quick' else [[first, follower], [follower, first]]):
 				if field.field_type.sort_key:
 					continue
 				yield ('S', base[1], [(name, pair if name == field.name else value) for name, value in base[2]])
